@@ -424,11 +424,13 @@ func ruleBatchDelivery(c *Ctx, r *R) {
 	// producer: defer close(c) in the entry block
 	okClose := false
 	var cCell *ssa.Alloc
+	var cVal ssa.Value
 	for _, in := range producer.Blocks[0].Instrs {
 		if d, ok := in.(*ssa.Defer); ok {
 			if b, ok := d.Call.Value.(*ssa.Builtin); ok && b.Name() == "close" {
 				okClose = true
 				cCell = loadCell(d.Call.Args[0])
+				cVal = d.Call.Args[0]
 			}
 			// a deferred function literal whose first block closes the channel (defer func() { close(c); s.Close() }())
 			if f := staticCallee(&d.Call); f != nil && f.Blocks != nil {
@@ -437,6 +439,7 @@ func ruleBatchDelivery(c *Ctx, r *R) {
 						if b, ok := call.Call.Value.(*ssa.Builtin); ok && b.Name() == "close" && chanElemIsNotEmptyStruct(call.Call.Args[0].Type()) {
 							okClose = true
 							cCell = loadCell(call.Call.Args[0])
+							cVal = call.Call.Args[0]
 						}
 					}
 				}
@@ -451,6 +454,10 @@ func ruleBatchDelivery(c *Ctx, r *R) {
 			if !a.send && cCell != nil && loadCell(a.ch) == cCell {
 				recvC = true
 			}
+			// the same channel, handed over as the result of the helper that starts the producer
+			if !a.send && cVal != nil && sameMadeChan(a.ch, cVal) {
+				recvC = true
+			}
 		}
 	}
 	r.ok(recvC, "stream.BatchFunc|single-carrier", batcher.Pos(), "the batcher must receive items from the channel the producer sends on and closes")
@@ -458,6 +465,10 @@ func ruleBatchDelivery(c *Ctx, r *R) {
 	okB := false
 	for _, in := range batcher.Blocks[0].Instrs {
 		if d, ok := in.(*ssa.Defer); ok {
+			// `defer close(out.batchC)` directly
+			if bb, ok := d.Call.Value.(*ssa.Builtin); ok && bb.Name() == "close" && len(d.Call.Args) == 1 && fieldOfChan(d.Call.Args[0]) == "batchC" {
+				okB = true
+			}
 			if f := resolveFuncValue(d.Call.Value, 0); f != nil {
 				for _, b := range f.Blocks {
 					for _, x := range b.Instrs {
@@ -855,6 +866,35 @@ func onlyTimeNow(v ssa.Value, seen map[ssa.Value]bool) bool {
 		return true
 	case *ssa.Const:
 		return true // the zero time.Time before the first item
+	}
+	return false
+}
+
+// madeChans: the make(chan) sites a channel value can come from (through locals, captured variables and the results of
+// in-package helpers); nil if any source is something else.
+func madeChans(v ssa.Value) map[*ssa.MakeChan]bool {
+	out := map[*ssa.MakeChan]bool{}
+	for _, lf := range valueLeaves(v, nil, 0) {
+		mk, ok := lf.v.(*ssa.MakeChan)
+		if !ok {
+			return nil
+		}
+		out[mk] = true
+	}
+	if len(out) == 0 {
+		return nil
+	}
+	return out
+}
+
+// sameMadeChan: a and b denote channels created at exactly the same (single) make site.
+func sameMadeChan(a, b ssa.Value) bool {
+	ma, mb := madeChans(a), madeChans(b)
+	if len(ma) != 1 || len(mb) != 1 {
+		return false
+	}
+	for k := range ma {
+		return mb[k]
 	}
 	return false
 }
